@@ -12,7 +12,9 @@ import AtreeProofs.Codec.SlabAll
   Round trip / re-encoding: standalone array data slabs (root / non-root, with or without sibling
   link), array index slabs and large-value slabs (`SlabOK`, `decode_encode_flat`), and — the
   general statements `decode_encode` / `reencode_fixpoint` — ALL SEVEN slab kinds under `SlabOKG`
-  (Codec/SlabAll.lean: per kind exactly the hypotheses of the kind-specific theorem below; never
+  (Codec/SlabAll.lean: per kind the hypotheses of the kind-specific theorem below, for `.adata` /
+  `.mdata` with the EXACT nesting clause `Slab.vdepth ≤ maxNestedLevels` — `MapDataOKX`, `ArrDataOKX`,
+  `ArrDataOKWX`, implied by the `…OKC` / `…OKI` / `…OKW` / `MapDataOK` predicates below; never
   `False`; `SlabOK s → SlabOKG s`).  The hypotheses `DataOK` / `MetaOK` /
   `validElem` collect what the encoder relies on (field widths, `count = len(elements)`,
   `size = prefix + Σ sizes`, children share the parent's address, …); they follow from the tree
